@@ -32,10 +32,8 @@ func deref(
 				return nil, err
 			}
 			if subStream == nil {
-				return func(t *Token) (Proc, error) {
-					*t = *token
-					return proc, nil
-				}, nil
+				// not resolved: pass the reference token through unchanged
+				return proc, nil
 			}
 			token.Reset() // do not provide KindRef token
 			return IterStream(
